@@ -133,7 +133,8 @@ class ClientSubSpec(Spec):
             "visited more than one client subscription state; distinct = distinct event-log digest; model_states = "
             "distinct (subscribed, paused) client states visited")
     expected_probes = ("op_subscribe", "op_pause", "op_resume", "op_sub_ctx", "op_pause_ctx", "refused_ops",
-                       "ctx_overlaps_subscribed", "ctx_overlaps_paused", "op_while_sub_all", "op_reconnect")
+                       "ctx_overlaps_subscribed", "ctx_overlaps_paused", "op_while_sub_all", "op_reconnect",
+                       "reconnect_after_loss")
     components = {"real": REAL_MANAGER + REAL_CLIENT, "stub": STUB_NET}
     assumptions = ["model-free: client and manager are compared with each other, the statement's own criterion",
                    "all connections writable during probes (a drop would be a legitimate non-delivery)"]
@@ -287,7 +288,7 @@ class ValidationSpec(Spec):
             "in quick).  non-trivial = the run contained a refusal or an in-force probe; distinct = distinct trace")
     expected_probes = ("probe_in_force", "probe_inside_block", "validation_off_inside_block", "block_exception",
                        "block_lib_exception", "nested_block", "tasks_3", "assign_set", "assign_item", "assign_slice",
-                       "assign_from", "refused", "accepted", "stale_accessor_used_in_force")
+                       "assign_from", "assign_nested", "refused", "accepted", "stale_accessor_used_in_force")
     components = {"real": ["pyrtma.validators (all descriptors, disable_message_validation)", "pyrtma.message_base",
                            "pyrtma.message_data"],
                   "stub": ["baton-scheduled tasks instead of OS-scheduled threads"]}
